@@ -186,13 +186,13 @@ CHECKS["C14"] = {
     "text": ("EmpiricalDistribution and ToyCalculator are executed symbolically on the current source for an ARBITRARY number of toys: pvalue(v) is "
              "exactly #{s_i >= v}/n with ties counted (a symbolic sum, rules R1-R3), lies in [0,1] and never increases with v; expected_value forwards "
              "Phi(nsigma)*100 to the linear percentile. ToyCalculator.distributions: signal toys are drawn from make_pdf(fixed_poi_fit(poi_test,...)), "
-             "background toys from make_pdf(fixed_poi_fit(0 | 1 for q0,...)) with sample shape (ntoys,), and - by loop invariants over the two toy "
-             "loops - entry i of either distribution is teststat(poi_test, sample_i, pdf, init, bounds, fixed); pvalues gives the two tail fractions "
+             "background toys from make_pdf(fixed_poi_fit(0 | 1 for q0,...)) with sample shape (ntoys,), and - the two toy "
+             "loops over a sequence of symbolic length being read as the comprehensions they are, independently of local names - entry i of either distribution is teststat(poi_test, sample_i, pdf, init, bounds, fixed); pvalues gives the two tail fractions "
              "and their ratio; teststatistic is the statistic of the observed data. NOT decided: the sampling distributions themselves (integer "
              "counts, mean = variance = rate, auxiliary values ~ constraint terms) and the agreement of toy estimates with exact tails - statistical "
              "statements about external samplers."),
     "note": "samplers, make_pdf and percentile uninterpreted; fit and statistic functions by their C05/C06 contracts; R1-R3 reduction rules trusted",
-    "technique": "contract-based deductive verification: symbolic sums with congruence/bound rules, loop invariants over the toy loops, z3; native replay with stubs",
+    "technique": "contract-based deductive verification: symbolic sums with congruence/bound rules, toy loops of symbolic length read as comprehensions (append-loop rule), z3; native replay with stubs",
 }
 NOT_APPLICABLE.pop("C14", None)
 
